@@ -93,6 +93,14 @@ def from_kani(h, pb, scratch):
                 binds.append('%s=float:%d' % (v, struct.unpack('<Q', bytes((val['bytes'] + [0] * 8)[:8]))[0]))
             else:
                 binds.append('%s=bool:%d' % (v, 1 if val['bytes'] and val['bytes'][0] else 0))
+    elif kind == 'hexlit' and len(vals) >= 3:
+        b0 = vals[0]['bytes'][0] if vals[0]['bytes'] else 0
+        b1 = vals[1]['bytes'][0] if vals[1]['bytes'] else 0
+        two = bool(vals[2]['bytes'] and vals[2]['bytes'][0])
+        lit = chr(b0) + (chr(b1) if two else '')
+        if not all(c.isalnum() for c in lit):
+            return None
+        expr = '0x' + lit
     elif kind == 'float_member':
         # which member was refuted is named in the failed check; operands are the harness's x (and y)
         failed = ' '.join(pb.get('failed_checks') or [])
